@@ -127,7 +127,7 @@ def _finite(data):
     return all(np.all(np.isfinite(d)) for d in data)
 
 
-def _amplification(spec, iname, cfl, nstep, rng):
+def _amplification(spec, iname, cfl, nstep, rng, dirs=None):
     """Lipschitz constant of the solve map measured on the real code: the same problem with its initial data perturbed by
     1e-9 relative.  Unstable configurations (centred flux without dissipation, large-CFL nonlinear implicit runs) amplify any
     round-off difference between twins by this factor, which is not a symmetry defect."""
@@ -137,8 +137,8 @@ def _amplification(spec, iname, cfl, nstep, rng):
         q *= 1.0 + 1e-9 * rng.uniform(-1, 1, q.shape)
     with probes.quiet():
         try:
-            e1 = gen.integ(iname)(mesh, disc).solve(f, cfl, stop={"maxit": nstep})[-1]
-            e2 = gen.integ(iname)(mesh, disc).solve(g, cfl, stop={"maxit": nstep})[-1]
+            e1 = gen.integ(iname)(mesh, disc).solve(f, cfl, stop={"maxit": nstep}, directives=dict(dirs or {}))[-1]
+            e2 = gen.integ(iname)(mesh, disc).solve(g, cfl, stop={"maxit": nstep}, directives=dict(dirs or {}))[-1]
         except np.linalg.LinAlgError:
             return float("inf")
     amp = 0.0
@@ -191,7 +191,8 @@ def reflection(ctx, rng, idx):
     model2, mesh2, disc2, f2 = tw.build(num=disc.num if share else None, model=model if (share and spec.mname in ("euler1d", "shallowwater", "burgers")) else None)
     cfl = float(rng.uniform(0.1, 0.4) if not implicit else rng.uniform(0.2, 1.5))
     nstep = int(rng.integers(1, 9 if not implicit else 4))
-    ctx.describe(integrator=iname, cfl=cfl, nstep=nstep, scheme_object_shared_with_twin=share, **spec.desc())
+    dirs = {"dtlocal": True} if rng.random() < 0.25 else {}        # a quarter of the twins run with one time step per cell
+    ctx.describe(integrator=iname, cfl=cfl, nstep=nstep, directives=dirs, scheme_object_shared_with_twin=share, **spec.desc())
     r1 = disc.rhs(f); r2 = unmirror(disc2.rhs(f2), spec.mname)
     if not (_finite(r1) and _finite(r2)):
         raise core.Skip("nonfinite rhs")       # reconstructed face states left the admissible set (possibly in one twin only, by round-off)
@@ -207,8 +208,8 @@ def reflection(ctx, rng, idx):
     # solve
     try:
         S1 = gen.integ(iname)(mesh, disc)
-        e1 = S1.solve(f, cfl, stop={"maxit": nstep})[-1]
-        e2 = gen.integ(iname)(mesh2, disc2).solve(f2, cfl, stop={"maxit": nstep})[-1]
+        e1 = S1.solve(f, cfl, stop={"maxit": nstep}, directives=dict(dirs))[-1]
+        e2 = gen.integ(iname)(mesh2, disc2).solve(f2, cfl, stop={"maxit": nstep}, directives=dict(dirs))[-1]
     except np.linalg.LinAlgError:
         raise core.Skip("singular")
     d2 = unmirror(e2.data, spec.mname)
@@ -219,7 +220,7 @@ def reflection(ctx, rng, idx):
     _cache = {}
     def _amp():
         if "a" not in _cache:
-            _cache["a"] = _amplification(spec, iname, cfl, nstep, rng)
+            _cache["a"] = _amplification(spec, iname, cfl, nstep, rng, dirs)
         return _cache["a"]
     if implicit:
         tol, cond = _implicit_tol(S1, disc, e1, cfl, iname, nstep)
@@ -262,7 +263,8 @@ def units(ctx, rng, idx):
     ps, qs, rs, ts = scales(spec.mname, a, b, l)
     cfl = float(rng.uniform(0.1, 0.4) if not implicit else rng.uniform(0.2, 1.5))
     nstep = int(rng.integers(1, 9 if not implicit else 4))
-    ctx.describe(integrator=iname, cfl=cfl, nstep=nstep, scale_density=a, scale_velocity=b, scale_length=l, scale_section_area=sa, **spec.desc())
+    dirs = {"dtlocal": True} if rng.random() < 0.25 else {}        # a quarter of the twins run with one time step per cell
+    ctx.describe(integrator=iname, cfl=cfl, nstep=nstep, scale_density=a, scale_velocity=b, scale_length=l, scale_section_area=sa, directives=dirs, **spec.desc())
     r1 = disc.rhs(f); r2 = [x / sc for x, sc in zip(disc2.rhs(f2), rs)]
     if not (_finite(r1) and _finite(r2)):
         raise core.Skip("nonfinite rhs")
@@ -286,8 +288,8 @@ def units(ctx, rng, idx):
                       {"eq": i, "scales": [a, b, l]}, cls="units:tolerance")
     try:
         S1 = gen.integ(iname)(mesh, disc)
-        e1 = S1.solve(f, cfl, stop={"maxit": nstep})[-1]
-        e2 = gen.integ(iname)(mesh2, disc2).solve(f2, cfl, stop={"maxit": nstep})[-1]
+        e1 = S1.solve(f, cfl, stop={"maxit": nstep}, directives=dict(dirs))[-1]
+        e2 = gen.integ(iname)(mesh2, disc2).solve(f2, cfl, stop={"maxit": nstep}, directives=dict(dirs))[-1]
     except np.linalg.LinAlgError:
         raise core.Skip("singular")
     d2 = [x / sc for x, sc in zip(e2.data, qs)]
@@ -302,7 +304,7 @@ def units(ctx, rng, idx):
     _cache = {}
     def _amp():
         if "a" not in _cache:
-            _cache["a"] = _amplification(spec, iname, cfl, nstep, rng)
+            _cache["a"] = _amplification(spec, iname, cfl, nstep, rng, dirs)
         return _cache["a"]
     if bitwise and not implicit:
         same = e1.time == t2 and all(np.array_equal(x, y) for x, y in zip(e1.data, d2))
